@@ -326,7 +326,8 @@ pub fn explained_by_noncanonical_integer(b: &[u8], c: &[u8], around: usize) -> b
     if b.is_empty() {
         return false;
     }
-    for k in around.saturating_sub(16)..=around.min(b.len() - 1) {
+    // (the marker may also follow the flipped byte: a former marker whose payload began with a marker value)
+    for k in around.saturating_sub(16)..=(around + 8).min(b.len() - 1) {
         let w = match b[k] {
             251 => 2,
             252 => 4,
@@ -371,7 +372,8 @@ pub fn classify(bytes: &[u8], around: Option<usize>) -> String {
         }
     }) {
         Ok(c) => c,
-        Err(p) => p.key(),
+        // the decoder has one entry point: the message identifies the class
+        Err(p) => format!("panic:{}", p.message.lines().next().unwrap_or("").chars().take(60).map(|c| if c.is_ascii_digit() { '#' } else { c }).collect::<String>()),
     }
 }
 
